@@ -47,7 +47,7 @@ Proof.
     + apply in_flat_map in Hm. destruct Hm as (x & Hx & Hm). destr_if; [|destruct Hm].
       destruct (todo_of (pasg q) (fst (snd x))) as [[]|]; simpl in Hm; try tauto; destruct Hm as [<-|[]]; simpl; auto.
     + apply in_flat_map in Hm. destruct Hm as (x & Hx & Hm). destr_if; [|destruct Hm].
-      destruct (todo_of (pasg q) (fst (fst (snd x)))) as [[]|]; simpl in Hm; try tauto; destruct Hm as [<-|[]]; auto.
+      destruct (todo_of (pasg q) (fst (fst (snd x)))) as [[]|]; simpl in Hm; try tauto; destruct Hm as [<-|[]]; simpl; auto.
     + apply in_map_iff in Hm. destruct Hm as (p & <- & Hp). simpl. auto.
 Qed.
 
